@@ -141,7 +141,7 @@ def r20d(model: Model, rr: RuleResult):
                 "implicit": config_origins(model, fi, edge.implicit, edge.call, fields, call, caller),
                 "variables": config_origins(model, fi, edge.variables, edge.call, fields, call, caller),
             }
-            where = f"{fi.qualname}" + (f" called from {caller.qualname} as {short(call.args[0], 30) if call.args else ''}" if caller else "")
+            where = f"{fi.qualname}"  # (keys of known findings must not depend on who calls the edge writer or what the caller names its dedupe set)
             extra_all = set()
             for part, ors in parts.items():
                 extra = ors - out_or
@@ -161,7 +161,7 @@ def r20d(model: Model, rr: RuleResult):
                         (isinstance(e.ops[0], ast.In) and not pol) or (isinstance(e.ops[0], ast.NotIn) and pol)):
                     keys.append((e.left, e.comparators[0]))
             if not keys:
-                rr.bad(fi, edge.call, f"shared intermediate {short(edge.outputs, 40)} has no dedupe guard: ninja rejects duplicate edges",
+                rr.bad_shape(fi, edge.call, f"shared intermediate {short(edge.outputs, 40)} has no dedupe guard: ninja rejects duplicate edges",
                        construct=f"{where}: no dedupe guard")
                 continue
             for key, cont in keys:
@@ -338,9 +338,11 @@ def _stmt_depends(fi: FuncInfo, st: ast.stmt, field: str, marker: str = "") -> b
     target = st
     # when the marker names a callee, the dependence must go through that call's own arguments
     mcalls = [c for c in ast.walk(st) if isinstance(c, ast.Call) and callee_tail(c) == marker]
+    seen_exprs = []
     if mcalls:
         for c in mcalls:
             names, exprs = expr_closure(cfg, at, ast.Tuple(elts=[c.func] + list(c.args) + [k.value for k in c.keywords], ctx=ast.Load()))
+            seen_exprs += exprs
             if field in fields_read(exprs, {field}):
                 return True
         exprs = []
@@ -349,6 +351,16 @@ def _stmt_depends(fi: FuncInfo, st: ast.stmt, field: str, marker: str = "") -> b
     texts = fields_read(exprs, {field})
     if field in texts:
         return True
+    # a helper function that did not exist when the sinks were read (an extracted expression): the option may be read in there
+    from .. import report as _report
+    for e in exprs + seen_exprs + [st]:
+        for c in ast.walk(e):
+            if isinstance(c, ast.Call) and isinstance(c.func, ast.Name):
+                key = f"{fi.module.name}.{c.func.id}"
+                if key in _report.CURRENT_DRIFT and _report.CURRENT_DRIFT[key] is None and c.func.id in fi.module.functions:
+                    h = fi.module.functions[c.func.id]
+                    if field in fields_read(list(h.body), {field}):
+                        return True
     # control dependence
     for t, lab in cfg.controlling_tests(at):
         test = getattr(cfg.nodes[t].ast, "test", None)
@@ -410,8 +422,9 @@ def r20b(model: Model, rr: RuleResult):
             if hit:
                 rr.ok(f"{f} -> {modname}.{fn} [{marker}]")
             elif cands == 0:
-                rr.bad(fi, fi.node, f"documented sink of option '{f}' ({marker}) no longer exists in {modname}.{fn}", construct=f"{f} -> {modname}.{fn} [{marker}] sink missing")
+                rr.bad_shape(fi, fi.node, f"documented sink of option '{f}' ({marker}) no longer exists in {modname}.{fn}", construct=f"{f} -> {modname}.{fn} [{marker}] sink missing")
             else:
+                # the sink is there and the def-use closure of what it receives is complete (helpers included): positive evidence
                 rr.bad(fi, fi.node, f"option '{f}' does not reach its sink '{marker}' in {modname}.{fn}: the observable stays at a constant or at another option's value",
                        construct=f"{f} -/-> {modname}.{fn} [{marker}]")
     # 3. USE_TYPO_METRICS
@@ -427,7 +440,7 @@ def r20b(model: Model, rr: RuleResult):
     if ok:
         rr.ok("USE_TYPO_METRICS (fsSelection bit 7) set")
     else:
-        rr.bad(ufi, ufi.node, "OS/2 fsSelection bit 7 (USE_TYPO_METRICS) is not set: typo metrics would not be selected", construct="_ufo: openTypeOS2Selection")
+        rr.bad_shape(ufi, ufi.node, "OS/2 fsSelection bit 7 (USE_TYPO_METRICS) is not set: typo metrics would not be selected", construct="_ufo: openTypeOS2Selection")
 
 
 @RULES.rule("C20", "R20f", "an intermediate's path depends on every argument of its dest function on every return", floor=2)
@@ -452,7 +465,7 @@ def r20f(model: Model, rr: RuleResult):
     if "if clipped:" in t and "out_dir / 'clipped'" in t and "_dest_for_src(picosvg_dest, out_dir, input_svg, '.svg')" in t:
         rr.ok("picosvg_dest: clipped sources go to picosvg/clipped/, unclipped to picosvg/")
     else:
-        rr.bad(pd, pd.node, "picosvg_dest no longer separates clipped and unclipped outputs by directory", construct="picosvg_dest body")
+        rr.bad_shape(pd, pd.node, "picosvg_dest no longer separates clipped and unclipped outputs by directory", construct="picosvg_dest body")
 
 
 @RULES.rule("C20", "R20g", "same-named sources get distinct intermediate paths (the disambiguator is allocated per source, not read off part of its path)", floor=2)
